@@ -375,6 +375,137 @@ func init() {
 				viol("C18:address:stale-after-ip-change", "address", fmt.Sprintf("after pod 1 got a new IP the same ReplicasManager lists %v, expected %v", a3, want3), cs)
 			}
 		}
+		// ---- (1e) all-namespaces mode (namespace ""): StatefulSets of the same name and labels in two namespaces
+		// are listed with their own pods only --------------------------------------------------------------
+		if c.Part == 0 {
+			idx++
+			cli := fake.NewSimpleClientset()
+			for ni, ns := range []string{"team-a", "team-b"} {
+				n := 2 + ni
+				st := c18Sts("prom", int32(n), 0, [3]int32{int32(n), int32(n), int32(n)})
+				st.Namespace = ns
+				st.Spec.Selector = &metav1.LabelSelector{MatchLabels: map[string]string{"k8s-app": "prometheus"}}
+				cli.AppsV1().StatefulSets(ns).Create(context.TODO(), st, metav1.CreateOptions{})
+				for i := 0; i < n; i++ {
+					p := &corev1.Pod{}
+					p.Name, p.Namespace = fmt.Sprintf("prom-%d", i), ns
+					p.Labels = map[string]string{"k8s-app": "prometheus"}
+					p.Status.PodIP = fmt.Sprintf("10.%d.0.%d", ni+1, 10+i)
+					p.Status.Conditions = []corev1.PodCondition{{Type: corev1.PodReady, Status: corev1.ConditionTrue}}
+					cli.CoreV1().Pods(ns).Create(context.TODO(), p, metav1.CreateOptions{})
+				}
+			}
+			rm := k8sshard.NewReplicasManager(cli, "", "k8s-app=prometheus", 8080, false, c18Log())
+			ms, err := rm.Replicas()
+			r.States++
+			r.Transitions++
+			var lists []string
+			for _, m := range ms {
+				sh, _ := m.Shards()
+				var out []string
+				for _, s := range sh {
+					var url string
+					s.APIGet = func(u string, ret interface{}) error { url = u; return fmt.Errorf("recorded") }
+					_, _ = s.RuntimeInfo()
+					out = append(out, fmt.Sprintf("%s@%s ready=%v", s.ID, strings.TrimSuffix(url, "/api/v1/shard/runtimeinfo/"), s.Ready))
+				}
+				lists = append(lists, strings.Join(out, " "))
+			}
+			sort.Strings(lists)
+			want := []string{"prom-0@http://10.1.0.10:8080 ready=true prom-1@http://10.1.0.11:8080 ready=true",
+				"prom-0@http://10.2.0.10:8080 ready=true prom-1@http://10.2.0.11:8080 ready=true prom-2@http://10.2.0.12:8080 ready=true"}
+			if err != nil || chk.JSON(lists) != chk.JSON(want) {
+				viol("C18:address:all-namespaces", "address", fmt.Sprintf("two StatefulSets named prom in team-a (2 pods) and team-b (3 pods), namespace \"\": listed %v (%v), expected %v", lists, err, want), map[string]interface{}{"namespaces": []string{"team-a", "team-b"}})
+			}
+		}
+		// ---- (1f) ONE ReplicasManager over a sequence of rounds (list, scale), with the API refusing claim deletions
+		// for a while: a claim of a shard that remains (ordinal < replicas) is never missing afterwards. Events:
+		// scale to 1..3 through the manager returned by Replicas(); deletions start / stop failing. Depth 4. ----
+		{
+			type ev struct {
+				scale int // 0: toggle the fault
+			}
+			alphabet := []ev{{1}, {2}, {3}, {0}}
+			var seq []ev
+			var walk func()
+			runSeq := func() {
+				cli := fake.NewSimpleClientset()
+				sts := c18Sts("rep1", 3, 2, [3]int32{3, 3, 3})
+				cli.AppsV1().StatefulSets(c18NS).Create(context.TODO(), sts, metav1.CreateOptions{})
+				ensure := func() {
+					g, _ := cli.AppsV1().StatefulSets(c18NS).Get(context.TODO(), "rep1", metav1.GetOptions{})
+					for t := 0; t < 2; t++ {
+						for i := 0; i < int(*g.Spec.Replicas); i++ {
+							p := &corev1.PersistentVolumeClaim{}
+							p.Name, p.Namespace = claimName(t, "rep1", i), c18NS
+							cli.CoreV1().PersistentVolumeClaims(c18NS).Create(context.TODO(), p, metav1.CreateOptions{})
+						}
+					}
+					// the controller also brings the status in line
+					g.Status.Replicas, g.Status.UpdatedReplicas, g.Status.ReadyReplicas = *g.Spec.Replicas, *g.Spec.Replicas, *g.Spec.Replicas
+					cli.AppsV1().StatefulSets(c18NS).UpdateStatus(context.TODO(), g, metav1.UpdateOptions{})
+				}
+				ensure()
+				failing := false
+				cli.PrependReactor("delete", "persistentvolumeclaims", func(action k8stesting.Action) (bool, runtime.Object, error) {
+					if failing {
+						return true, nil, fmt.Errorf("scripted: the API refuses the deletion")
+					}
+					return false, nil, nil
+				})
+				rm := k8sshard.NewReplicasManager(cli, c18NS, "k8s-app=prometheus", 8080, true, c18Log())
+				var names []string
+				for _, e := range seq {
+					if e.scale == 0 {
+						failing = !failing
+						names = append(names, fmt.Sprintf("deletions-fail=%v", failing))
+					} else {
+						names = append(names, fmt.Sprintf("round+scale(%d)", e.scale))
+						ms, err := rm.Replicas()
+						if err != nil || len(ms) != 1 {
+							viol("C18:replicas-error", "replicas-manager", fmt.Sprintf("after %v: Replicas() = %d managers, %v", names, len(ms), err), nil)
+							return
+						}
+						_ = ms[0].ChangeScale(int32(e.scale)) // may report the refused deletion
+						ensure()
+					}
+					// a further round without scaling: nothing that remains may be missing
+					_, _ = rm.Replicas()
+					g, _ := cli.AppsV1().StatefulSets(c18NS).Get(context.TODO(), "rep1", metav1.GetOptions{})
+					have := map[string]bool{}
+					for _, n := range listClaims(cli) {
+						have[n] = true
+					}
+					for t := 0; t < 2; t++ {
+						for i := 0; i < int(*g.Spec.Replicas); i++ {
+							if !have[claimName(t, "rep1", i)] {
+								viol("C18:claim-deleted:claim of a remaining shard:across-rounds", "claims", fmt.Sprintf("after %v: replicas=%d but the claim %s is gone", names, *g.Spec.Replicas, claimName(t, "rep1", i)), map[string]interface{}{"rounds": names})
+								return
+							}
+						}
+					}
+				}
+			}
+			walk = func() {
+				if len(seq) > 0 {
+					idx++
+					if c.Mine(idx) {
+						runSeq()
+						r.States++
+						r.Transitions += int64(len(seq))
+					}
+				}
+				if len(seq) == 4 {
+					return
+				}
+				for _, e := range alphabet {
+					seq = append(seq, e)
+					walk()
+					seq = seq[:len(seq)-1]
+				}
+			}
+			walk()
+		}
 		// ---- (2) Shards(): every pod list order, IP pattern, missing ordinal ---------------------
 		maxPods := 4
 		for n := 0; n <= maxPods; n++ {
